@@ -954,7 +954,7 @@ func main() {
 	debug.SetGCPercent(1000) // the live heap is small and the cases allocate a lot: collect less often
 	r := vf.Start("C16", "exploration")
 	r.SetRule("a container case = a sequence of 1..12 SetByte/SetBytes/SetString calls on a fresh util TLV8 container: Get* of all 256 tags before serialisation, " +
-		"the reference parse of BytesBuffer(), the fragment rule and hc's re-parse (Get* of all 256 tags, bytes) are compared with a per-tag model; non-trivial = distinct " +
+		"(values up to 70000 bytes sampled, and containers of 64 KiB .. 1 MiB (thorough 4 MiB) with an item boundary on / next to the round offset) the reference parse of BytesBuffer(), the fragment rule and hc's re-parse (Get* of all 256 tags, bytes) are compared with a per-tag model; non-trivial = distinct " +
 		"(call, tag, length) sequence with at least one non-empty value. A parser case = one byte string handed to NewTLV8ContainerFromReader: no panic, on success " +
 		"BytesBuffer() identical to the input and Get* equal to the reference's per-tag concatenation; non-trivial = distinct non-empty input")
 	r.Assume("refctl's TLV8 codec follows the HAP specification (self-tested): one-byte tag, one-byte length, consecutive same-tag items are fragments of one value")
@@ -1068,6 +1068,39 @@ func main() {
 				}
 				c.runContainer(ops, "long-value-sampled")
 				c.count("long_value_cases", 1)
+			}
+		})
+	}
+
+	// ---- A3b: very long values around round total sizes (64 KiB .. 4 MiB, 10^5 .. 2*10^6): a first small item is sized so that an
+	// item boundary of the second value's fragments falls exactly on the round offset R (also R-1, R+1 and an unaligned
+	// layout), and the container continues beyond it.  Both directions: hc serialises + re-parses, and hc parses the
+	// reference encoding.
+	rounds := []int{1 << 16, 100000, 1 << 17, 1 << 18, 500000, 1 << 19, 1000000, 1 << 20}
+	if r.Thorough() {
+		rounds = append(rounds, 2000000, 1<<21, 3000000, 1<<22)
+	}
+	for _, R := range rounds {
+		R := R
+		add(func(c *ctx) {
+			for _, off := range []int{0, -1, 1, 100} {
+				target := R + off
+				n0 := (target - 2) % 257 // (2+n0) + 257*m == target
+				m := (target - 2 - n0) / 257
+				if n0 > 255 { // 256: two items 2+254 and 2+0 ... use a 255 byte and shift by one full fragment less one byte
+					n0 = 255
+					m = (target - 2 - n0) / 257
+				}
+				tagA := byte(c.rnd.Intn(256))
+				tagB := tagA + 1 + byte(c.rnd.Intn(254))
+				ops := []op{mkOp(c.rnd, "SetBytes", tagA, n0), mkOp(c.rnd, "SetBytes", tagB, 255*m+1000+c.rnd.Intn(2000)), mkOp(c.rnd, "SetByte", tagA+1, 1)}
+				if ops[2].Tag == tagB {
+					ops = ops[:2]
+				}
+				c.runContainer(ops, "very-long-value-round-offset")
+				c.runParse(refEncode(c.rnd, ops, 0), "valid-reference-encoding-very-long")
+				c.count("very_long_value_cases", 2)
+				c.dist("very_long_round_offset", fmt.Sprint(R))
 			}
 		})
 	}
@@ -1192,6 +1225,7 @@ func main() {
 	r.Floor("sets_exact_multiple_of_255", int(r.Counter("sets_exact_multiple_of_255")), 500)
 	r.Floor("containers_with_repeated_tag", int(r.Counter("containers_with_repeated_tag")), 1000)
 	r.Floor("sequence features", r.DistinctN("sequence_feature"), 7)
+	r.Floor("very_long_value_cases", int(r.Counter("very_long_value_cases")), len(rounds)*8)
 	r.Floor("parser_inputs", int(r.Counter("parser_inputs")), r.Pick(100000, 1000000))
 	r.Floor("parser truncations", int(r.Counter("parser_inputs_truncation-of-valid-encoding")), 10000)
 	r.Floor("parser length-byte mutations", int(r.Counter("parser_inputs_length-byte-mutation")), 1000)
